@@ -63,9 +63,42 @@ static void patch_field(char* buf, int beg, int end)
          buf[i] = PATCH_CHAR;
 }
 
+/// re-entrant replacement of strtok(..., " "): returns the next blank-delimited token at or after \p pos, terminates it
+/// and advances \p pos behind it (strtok keeps its position in a hidden static variable shared by all threads)
+static char* nextToken(char*& pos)
+{
+   if(pos == nullptr)
+      return nullptr;
+
+   while(*pos == ' ')
+      ++pos;
+
+   if(*pos == '\0')
+   {
+      pos = nullptr;
+      return nullptr;
+   }
+
+   char* tok = pos;
+
+   while(*pos != '\0' && *pos != ' ')
+      ++pos;
+
+   if(*pos == ' ')
+   {
+      *pos = '\0';
+      ++pos;
+   }
+   else
+      pos = nullptr;
+
+   return tok;
+}
+
 /// read a MPS format data line and parse the fields.
 bool MPSInput::readLine()
 {
+   char* tokpos = nullptr;
    int   len;
    int   space;
    char* s;
@@ -118,11 +151,12 @@ bool MPSInput::readLine()
        */
       if(*m_buf != BLANK)
       {
-         m_f0 = strtok(&m_buf[0], " ");
+         tokpos = &m_buf[0];
+         m_f0 = nextToken(tokpos);
 
          assert(m_f0 != nullptr);
 
-         m_f1 = strtok(nullptr, " ");
+         m_f1 = nextToken(tokpos);
 
          return true;
       }
@@ -194,10 +228,12 @@ bool MPSInput::readLine()
        */
       do
       {
-         if(nullptr == (m_f1 = strtok(s, " ")))
+         tokpos = s;
+
+         if(nullptr == (m_f1 = nextToken(tokpos)))
             break;
 
-         if((nullptr == (m_f2 = strtok(nullptr, " "))) || (*m_f2 == '$'))
+         if((nullptr == (m_f2 = nextToken(tokpos))) || (*m_f2 == '$'))
          {
             m_f2 = nullptr;
             break;
@@ -206,7 +242,7 @@ bool MPSInput::readLine()
          if(!strcmp(m_f2, "'MARKER'"))
             is_marker = true;
 
-         if((nullptr == (m_f3 = strtok(nullptr, " "))) || (*m_f3 == '$'))
+         if((nullptr == (m_f3 = nextToken(tokpos))) || (*m_f3 == '$'))
          {
             m_f3 = nullptr;
             break;
@@ -225,7 +261,7 @@ bool MPSInput::readLine()
          if(!strcmp(m_f3, "'MARKER'"))
             is_marker = true;
 
-         if((nullptr == (m_f4 = strtok(nullptr, " "))) || (*m_f4 == '$'))
+         if((nullptr == (m_f4 = nextToken(tokpos))) || (*m_f4 == '$'))
          {
             m_f4 = nullptr;
             break;
@@ -241,7 +277,7 @@ bool MPSInput::readLine()
                break; // unknown marker
          }
 
-         if((nullptr == (m_f5 = strtok(nullptr, " "))) || (*m_f5 == '$'))
+         if((nullptr == (m_f5 = nextToken(tokpos))) || (*m_f5 == '$'))
             m_f5 = nullptr;
       }
       while(false);
